@@ -89,7 +89,8 @@ theorem parseHvcc_hevcRecord (r : HevcRecord) (vps sps pps : Bytes) (hl : r.leng
       h.profileSpace = (((r.space <<< 6) ||| (r.tier <<< 5) ||| r.idc) >>> 6).toNat ∧
       h.tier = ((((r.space <<< 6) ||| (r.tier <<< 5) ||| r.idc) >>> 5) &&& 1).toNat ∧
       h.profileIdc = (((r.space <<< 6) ||| (r.tier <<< 5) ||| r.idc) &&& 0x1F).toNat ∧
-      h.compat = r.compat.toNat ∧ h.level = r.level.toNat := by
+      h.compat = r.compat.toNat ∧ h.level = r.level.toNat ∧
+      (r.constraint.toNat < 281474976710656 → h.constraint = r.constraint.toNat) := by
   have ha := parseHvccArrays_three vps sps pps hv hs hp
   rw [List.append_assoc] at ha
   obtain ⟨c1, _, _⟩ := u8_reserved_bits r.chroma
@@ -104,9 +105,14 @@ theorem parseHvcc_hevcRecord (r : HevcRecord) (vps sps pps : Bytes) (hl : r.leng
   simp only [hevcRecordBytes, be32_eq, be16_eq, hl, List.cons_append, List.nil_append, List.append_assoc, parseHvcc]
   simp only [k1, k2, k3, c1, c2, c3, c4, ha, ec, ne_eq, not_true_eq_false, if_false]
   refine ⟨_, rfl, ?_⟩
-  refine ⟨?_, rfl, rfl, rfl, rfl, ?_, rfl⟩
+  refine ⟨?_, rfl, rfl, rfl, rfl, ?_, rfl, ?_⟩
   · simpa using c4
   · simp only []; omega
+  · intro hcon
+    have hsh : (r.constraint >>> 16).toNat = r.constraint.toNat / 65536 := by
+      simp [UInt64.toNat_shiftRight, Nat.shiftRight_eq_div_pow]
+    simp only [u16, u32, b8_toNat, hsh]
+    omega
 
 /-! ### AUDIODATA -/
 
